@@ -894,6 +894,12 @@ func init() {
 							s2 := append([]fr.Element(nil), sib...)
 							var one fr.Element
 							one.SetOne()
+							if r.Intn(3) == 0 {
+								// a structured step: multiples of the Goldilocks prime, limb / chunk sized
+								// powers of two (a comparison done after a reduction must not hide it)
+								d := []*big.Int{bigP, new(big.Int).Lsh(bigP, 100), new(big.Int).Lsh(bigP, 64), pow2(64), pow2(128), pow2(192), pow2(56)}[r.Intn(7)]
+								one.SetBigInt(d)
+							}
 							if r.Intn(2) == 0 {
 								one.Neg(&one) // either direction: a one-sided comparison must not hide it
 							}
@@ -972,6 +978,12 @@ func init() {
 							}
 							var one fr.Element
 							one.SetOne()
+							if r.Intn(3) == 0 {
+								// a structured step: multiples of the Goldilocks prime, limb / chunk sized
+								// powers of two (a comparison done after a reduction must not hide it)
+								d := []*big.Int{bigP, new(big.Int).Lsh(bigP, 100), new(big.Int).Lsh(bigP, 64), pow2(64), pow2(128), pow2(192), pow2(56)}[r.Intn(7)]
+								one.SetBigInt(d)
+							}
 							if r.Intn(2) == 0 {
 								one.Neg(&one) // either direction: a one-sided comparison must not hide it
 							}
@@ -987,6 +999,12 @@ func init() {
 						case "capsel":
 							var one fr.Element
 							one.SetOne()
+							if r.Intn(3) == 0 {
+								// a structured step: multiples of the Goldilocks prime, limb / chunk sized
+								// powers of two (a comparison done after a reduction must not hide it)
+								d := []*big.Int{bigP, new(big.Int).Lsh(bigP, 100), new(big.Int).Lsh(bigP, 64), pow2(64), pow2(128), pow2(192), pow2(56)}[r.Intn(7)]
+								one.SetBigInt(d)
+							}
 							if r.Intn(2) == 0 {
 								one.Neg(&one) // either direction: a one-sided comparison must not hide it
 							}
@@ -994,6 +1012,12 @@ func init() {
 						case "capunsel":
 							var one fr.Element
 							one.SetOne()
+							if r.Intn(3) == 0 {
+								// a structured step: multiples of the Goldilocks prime, limb / chunk sized
+								// powers of two (a comparison done after a reduction must not hide it)
+								d := []*big.Int{bigP, new(big.Int).Lsh(bigP, 100), new(big.Int).Lsh(bigP, 64), pow2(64), pow2(128), pow2(192), pow2(56)}[r.Intn(7)]
+								one.SetBigInt(d)
+							}
 							if r.Intn(2) == 0 {
 								one.Neg(&one) // either direction: a one-sided comparison must not hide it
 							}
